@@ -56,6 +56,30 @@ CLAIMS = {
    text="Deductive proof of the format decision kernels: extension table and its round trip for all seven formats, safe signature sniffing for every byte string, refusal when recognised content differs from the extension's format, and the DRM decision (rights file anywhere => refused; encrypted content iff some entry is not font obfuscation and covers a content document; font obfuscation = Adobe/IDPF obfuscation identifiers).",
    note=TRUST + "PARTIAL: zip/xml parsing and the ZIP family detection loop are library/unmodelled; string predicates (Contains/HasSuffix/ToLower) are uninterpreted deterministic functions.",
    ref="5.20"),
+ "C03": dict(
+   text="Proof of frame conditions by static analysis of the real code plus contracts: (1) no package-level variable is written on any path reachable (static call graph, interface calls resolved by method name, function values) from an exported entry point — writes are allowed only in init functions or in declared registration APIs that no other entry point reaches; (2) the content-stream parser keeps pending operands per parser: every operator receives exactly the operands parsed since the previous operator of THIS parse (SMT-discharged contracts on parseNext/parseOperator/Parse); (3) range-over-map loops accepted by structural order-insensitivity rules on the reviewed tree stay order-insensitive (e.g. CSV columns are sorted after collection).",
+   note=TRUST + "PARTIAL: concurrency is argued from disjoint footprints (no shared mutable package state), not explored; 18 map iterations that the structural rules do not accept are listed as unclaimed in the evidence (not proved order-insensitive); data races inside third-party packages and reflection are out of reach.",
+   ref="5.3"),
+ "C04": dict(
+   text="Deductive proof of the revision-merge kernels: MergeXRefTables maps every object number to the entry of the LAST table (newest revision, tables oldest-first) that defines it and defines nothing else, with the last table's trailer (loop invariants over a ghost set of visited map keys; recursive spec function lastDef); readBigEndianInt equals the big-endian value of min(width,8) bytes for every input.",
+   note=TRUST + "PARTIAL: xref discovery and parsing, /Prev chain order (ParseAllXRefs), object-stream lookup and the reader's object cache are not yet under contract; map iteration modelled as 'every present key exactly once in arbitrary order' assuming the loop body does not modify the ranged map.",
+   ref="5.4"),
+ "C07": dict(
+   text="Deductive proof that DecodeUTF16BE/LE return exactly the scalar values a conforming UTF-16 encoder (RFC 2781, ghost scalar and offset sequences) started from, including surrogate pairs, for every well-formed even-length input; that the simple-font table decoder returns exactly the mapped table entries in order; that CMap.Lookup gives an explicit bfchar mapping precedence over ranges and maps a code in the first matching range to StartUnicode+(code-StartCode); and that fixed-width and width-less CMap string decoding stay in bounds and terminate.",
+   note=TRUST + "PARTIAL: the UTF-16 monotonicity of offsets is a redundant precondition implied pointwise (induction not mechanised); string(rune)/string([]rune) are uninterpreted encodings (UTF-8 validity of the final string, NFC normalisation, the encoding tables' contents, CMap program parsing and decode-priority in (*Font).DecodeString are not under contract).",
+   ref="5.7"),
+ "C09": dict(
+   text="Deductive proof of fragment conservation for the line-grouping stages: for an ARBITRARY non-negative weight per fragment (uninterpreted, so the statement is multiset equality), text.groupFragments and layout.(*LineDetector).groupIntoLines (including its sort and per-line re-sorts) preserve the total weight and produce no empty line, and buildLines puts every group's fragments into exactly one Line except for the recorded known finding (narrow lines).",
+   note=TRUST + "PARTIAL: prefix-fold stability under append/copy/permutation/field update is an engine rule justified by induction on the fold (shape of each fold checked syntactically; A6); sort.* are trusted permutations; columns, paragraphs, blocks, reading order and text rendering are not yet under contract.",
+   ref="5.9"),
+ "C12": dict(
+   text="Deductive proof that RAG chunk metadata is consistent: every chunk constructor takes the next index and advances the counter by one, reports the page its content came from and stores its own copy of the section path; chunkPage and ChunkDocument yield indices 0..n-1 in order with TotalChunks = n on every chunk; the section stack after a heading is the chain of enclosing headings when no heading level was skipped (general case: recorded known finding).",
+   note=TRUST + "PARTIAL: content conservation (every element's text in exactly one chunk), ID uniqueness (fmt.Sprintf is uninterpreted) and the layout-based rag.Chunker section tree are not under contract.",
+   ref="5.12"),
+ "C18": dict(
+   text="Deductive proof that EPUB chapters are loaded in spine order (strictly increasing declared index, each from its manifest item) and worksheets in workbook order with their declared names; PPTX: must-read frame obligation (slide order can only follow the declared slide list if the code reads it) — fails on the pinned tree and is a recorded known finding with a witness.",
+   note=TRUST + "PARTIAL: href resolution, percent-decoding, relationship resolution and 'text appears only in its own page' are not under contract.",
+   ref="5.18"),
 }
 
 NA = {
